@@ -5,7 +5,7 @@ use std::fmt::Write as _;
 
 pub const ALPHABET: &[char] = &[
     'a', 'b', 'c', '0', '1', ' ', '\u{e9}', '\u{3042}', '\u{30ab}', '\u{4e00}', '\u{4e8c}', '\u{ffff}',
-    '\u{10000}', '\u{1f600}', '\u{3000}', 'z', '\u{10ffff}',
+    '\u{10000}', '\u{1f600}', '\u{3000}', 'z',
 ];
 
 #[derive(Clone, Debug)]
